@@ -107,6 +107,8 @@ class Thread
 #endif
 	Handle_ _thread;
 	volatile bool _threadFinished;
+protected:
+	bool _deleteOnExit; // set by heap-allocated threads that are to be deleted when their run() ends
 private:
 	template<class F>
 	struct Context {
@@ -153,6 +155,8 @@ private:
 		ASL_VERIF_HOOK(17, t, 0);
 		t->_threadFinished = true;
 		ASL_VERIF_HOOK(13, t, 0);
+		if (t->_deleteOnExit)
+			delete t;
 		return 0;
 	}
 #ifdef ASL_EXP_THREADING
@@ -190,10 +194,12 @@ public:
 	{
 		_thread = 0;
 		_threadFinished = false;
+		_deleteOnExit = false;
 	}
 	Thread(const Thread& t) : _thread(t._thread)
 	{
 		_threadFinished = false;
+		_deleteOnExit = false;
 		const_cast<Thread&>(t)._thread = 0;
 	}
 	void operator=(const Thread& t)
@@ -277,6 +283,7 @@ public:
 	{
 		_thread = 0;
 		_threadFinished = false;
+		_deleteOnExit = false;
 		Thread t(start(f, this)); // start() hands the thread handle over in its return value
 		_thread = t._thread;      // take it back without touching _threadFinished, which the new thread may already have set
 		t._thread = 0;
